@@ -4,7 +4,10 @@ import (
 	"bytes"
 	"context"
 	"fmt"
+	"math"
+	"math/big"
 	"runtime"
+	"strconv"
 	"strings"
 	"unicode/utf8"
 
@@ -537,6 +540,132 @@ service Svc { Req M(1: Req req), }
 		cs.Distinct(fmt.Sprintf("depth-%d", d))
 	})
 	runJSConvJ2T(c)
+	runDoubleSpelling(c)
+}
+
+// doubleSpellingCase builds one document of hard double spellings and the struct it denotes.
+func doubleSpellingCase(cs *h.Case) (string, *tref.Val, bool) {
+	exact := func(x *big.Float) string {
+		t := x.Text('f', 1100)
+		if strings.Contains(t, ".") {
+			t = strings.TrimRight(t, "0")
+			if strings.HasSuffix(t, ".") {
+				t += "0"
+			}
+		}
+		return t
+	}
+	var texts []string
+	for k := 0; k < 6; k++ {
+		var f float64
+		switch cs.R.Intn(4) {
+		case 0:
+			f = float64(int64(1)<<53) + float64(cs.R.Intn(4096)*2) // integers just above 2^53
+		case 1:
+			f = math.Float64frombits(cs.R.U64()&0x7fefffffffffffff | 0x0010000000000000) // random normal
+		case 2:
+			f = math.Ldexp(1+float64(cs.R.Intn(1<<20))/float64(1<<20), cs.R.Intn(120)-60)
+		default:
+			f = gen.GenDouble(cs.R, false)
+		}
+		if math.IsInf(f, 0) || math.IsNaN(f) || f == 0 {
+			f = 1
+		}
+		f = math.Abs(f)
+		if f < 1e-280 || f > 1e280 {
+			f = 1.5
+		}
+		next := math.Nextafter(f, math.Inf(1))
+		bf := new(big.Float).SetPrec(4000).SetFloat64(f)
+		bn := new(big.Float).SetPrec(4000).SetFloat64(next)
+		mid := new(big.Float).SetPrec(4000).Add(bf, bn)
+		mid.Quo(mid, big.NewFloat(2))
+		m := exact(mid)
+		if !strings.Contains(m, ".") {
+			m += ".0"
+		}
+		sign := ""
+		if cs.R.Bool() {
+			sign = "-"
+		}
+		switch cs.R.Intn(5) {
+		case 0:
+			texts = append(texts, sign+exact(bf)) // exact expansion of the float itself
+		case 1:
+			texts = append(texts, sign+m) // exact tie: round half to even
+		case 2:
+			texts = append(texts, sign+m+"0000000000000000000001") // a hair above the midpoint
+		case 3:
+			texts = append(texts, sign+exact(bf)+strings.Repeat("9", 40)) // long mantissa just above f
+		default:
+			// a hair below the midpoint: drop the last digit of the midpoint's expansion and append 9s
+			texts = append(texts, sign+m[:len(m)-1]+"4999999999999999999999")
+		}
+	}
+	want := tref.Struct()
+	var vals []*tref.Val
+	for _, t := range texts {
+		x, err := strconv.ParseFloat(t, 64)
+		if err != nil {
+			cs.Cover("oracle_parse_failed")
+			return "", nil, false
+		}
+		vals = append(vals, tref.Double(x))
+	}
+	want.Fs = append(want.Fs, tref.Field{ID: 1, V: vals[0]}, tref.Field{ID: 2, V: &tref.Val{T: tref.LIST, ET: tref.DOUBLE, L: vals[1:]}})
+	doc := `{"d":` + texts[0] + `,"l":[` + strings.Join(texts[1:], ",") + `]}`
+	return doc, want, true
+}
+
+// runDoubleSpelling: "independent of number spelling" for doubles whose decimal text needs the slow, exact path of
+// the number parser: exact decimal expansions (hundreds of digits), exact midpoints between adjacent float64 values
+// (ties to even) and texts a hair above / below a midpoint. The expected value is strconv.ParseFloat of the text.
+func runDoubleSpelling(c *h.Ctx) {
+	st := &gen.StructT{Name: "Dbl", Fields: []*gen.FieldT{
+		{ID: 1, Name: "d", T: &gen.Type{T: tref.DOUBLE}},
+		{ID: 2, Name: "l", T: &gen.Type{T: tref.LIST, Elem: &gen.Type{T: tref.DOUBLE}}},
+	}}
+	sc := &gen.Schema{Structs: []*gen.StructT{st}, Root: st}
+	var desc *thrift.TypeDescriptor
+	c.Run("double-spelling", c.N(1500, 60000), func(cs *h.Case) {
+		if desc == nil {
+			d, _, err := ParseRoot(sc, thrift.NewDefaultOptions())
+			if err != nil {
+				cs.Viol("j2t:parse-idl", "err", err)
+				return
+			}
+			desc = d
+		}
+		doc, want, ok := doubleSpellingCase(cs)
+		if !ok {
+			return
+		}
+		cs.Info("json", trunc(doc))
+		cv := j2t.NewBinaryConv(conv.Options{})
+		tr := h.TrapCopy([]byte(doc), cs.R.Bool(), true)
+		defer tr.Free()
+		out, err := cv.Do(context.Background(), desc, tr.B)
+		if err != nil {
+			cs.Viol("j2t:double-spelling:error-on-conforming", "err", err)
+			return
+		}
+		got, derr := tref.Decode(out, tref.STRUCT)
+		if derr != nil {
+			cs.Viol("j2t:double-spelling:malformed-output", "decode-error", derr)
+			return
+		}
+		if !tref.Equal(got, want) {
+			if equalModNegZero(got, want) {
+				cs.Viol("j2t:double-spelling:neg-zero-sign-lost", "got", got.String())
+				return
+			}
+			cs.Viol("j2t:double-spelling:value", "first-diff", firstDiff(got, want, ""), "got", got.String(), "want", want.String())
+			return
+		}
+		cs.Cover("double_spelling_ok")
+		cs.CoverN("double_texts_checked", 6)
+		cs.Distinct(fmt.Sprintf("ds-%d", cs.I))
+	})
 }
 
 // firstDiff describes the first difference between two models.
